@@ -49,6 +49,9 @@ pub struct CoreOpts {
     pub establishment_timeout: Duration,
     pub tcp_timeout: Duration,
     pub listener_timeout: Option<Duration>,
+    /// false: the library is embedded with an authenticator of the embedder's own - `Settings::clients` stays empty
+    /// (the authenticator is still the registry of `clients`)
+    pub registry_in_settings: bool,
 }
 
 impl Default for CoreOpts {
@@ -60,6 +63,7 @@ impl Default for CoreOpts {
             establishment_timeout: Duration::from_secs(2),
             tcp_timeout: Duration::from_secs(600),
             listener_timeout: None,
+            registry_in_settings: true,
         }
     }
 }
@@ -93,14 +97,15 @@ pub fn make_core(o: &CoreOpts) -> Core {
         .allow_private_network_connections(o.allow_private)
         .connection_establishment_timeout(o.establishment_timeout)
         .tcp_connections_timeout(o.tcp_timeout)
-        .clients(o.clients.iter().map(|(u, p)| Client { username: u.clone(), password: p.clone() }).collect())
+        .clients(if o.registry_in_settings { o.clients.iter().map(|(u, p)| Client { username: u.clone(), password: p.clone() }).collect() } else { vec![] })
         .build()
         .expect("settings");
+    let all_clients: Vec<Client> = o.clients.iter().map(|(u, p)| Client { username: u.clone(), password: p.clone() }).collect();
     let authenticator: Option<Arc<dyn Authenticator>> = if o.clients.is_empty() {
         None
     } else {
         Some(Arc::new(SniAwareAuthenticator {
-            registry: RegistryBasedAuthenticator::new(settings.get_clients()),
+            registry: RegistryBasedAuthenticator::new(&all_clients),
             accepted_sni: o.accepted_sni.clone(),
         }))
     };
